@@ -143,7 +143,10 @@ pub fn check_c08_steps(obs: &Obs) -> Result<bool, String>
         {
             vsys::Op::Rename(from, to) =>
             {
-                if e.note == "dst=different"
+                // ruler's own state files (table, rule histories) are not user content: the property
+                // speaks of declared target paths and the cache
+                let user_content = !engine::in_ruler_dir(to) || to.starts_with(&cp);
+                if e.note == "dst=different" && user_content
                 {
                     return Err(format!("ruler renamed {} over {} which held different content", from, to));
                 }
